@@ -1,6 +1,7 @@
 import OrdModel.Proofs.IndexRunesupplyTx
 import OrdModel.Index.OracleRunesupply
 import OrdModel.Proofs.IndexLiftRuneSupplyChain
+import OrdModel.Proofs.IndexLiftRuneC16
 /-!
 # C08 — Rune supply is conserved
 
@@ -170,6 +171,62 @@ theorem c08_reachable_conserved (cfg : Cfg) (st : State) (chain : List Block) (e
     Reachable cfg st ∧ Conserved st.runeEntries st.balances (chainOpret chain) :=
   ⟨⟨chain, evs, hr⟩, c08_chain_conserved cfg chain st evs hr hc⟩
 
+/-! ### the C16 corollary: no `Lot` panic (`Proofs/IndexLiftRuneNoLot*.lean`, `IndexLiftRuneKeys.lean`) -/
+
+/-- **Under the supply invariant none of the `Lot` panic branches fires.**  Let `st` be any
+reachable state (any configuration) and `blk` the next block; `st1` is the state the first pass
+of `applyBlock` hands to the rune pass (the result of `indexUtxoEntries`, or `st` itself when the
+sat / address / inscription indexes are off).  Then `indexRunesBlock st1 blk` — all of `addLot`
+(`unallocated`, `allocated[..]`, the burn maps), `allocate`, and `flushBurned` at the end of the
+block — never panics with `"lot overflow"`, `"entry.burned.checked_add(burned).unwrap()"` or
+`"id_to_entry.get(rune_id).unwrap()"`.
+
+Hypotheses (`RuneLift.LotChainOK (chain ++ [blk])`): consecutive blocks of ≤ 2^32 transactions,
+no repeated txid, and every etching passes the decipher-time supply check
+`premine + cap · amount < 2^128` (`Valid.etchingSupplyInRange`, part of C16's `validChain`).
+(`"lot underflow"` / `"allocated[output]"` / the two asserts are not supply sites; C16 discharges
+them from the stateless rules: `rune_pass_ok` below combines both.) -/
+theorem c08_no_lot_panic (cfg : Cfg) (chain : List Block) (st : State) (evs : List Event)
+    (hr : run cfg chain = .ok (st, evs)) (blk : Block) (hc : RuneLift.LotChainOK (chain ++ [blk]))
+    (st1 : State) (ev1 : List Event)
+    (h1 : (if (cfg.indexInscriptions || cfg.indexAddresses || cfg.indexSats) = true
+      then indexUtxoEntries cfg st blk else .ok (st, [])) = .ok (st1, ev1))
+    (s : String) (hp : indexRunesBlock st1 blk = .panic s) :
+    s ≠ "lot overflow" ∧ s ≠ "entry.burned.checked_add(burned).unwrap()" ∧
+    s ≠ "id_to_entry.get(rune_id).unwrap()" := by
+  have hf : Runemint.RuneFrame st st1 := by
+    split at h1
+    · exact RuneLift.indexUtxoEntries_frame cfg st blk st1 ev1 h1
+    · simp only [Outcome.ok.injEq, Prod.mk.injEq] at h1
+      rw [← h1.1]; exact RuneLift.frame_refl _
+  have := RuneLift.next_block_noLot cfg chain st evs hr blk hc st1 hf s hp
+  simpa [RuneLift.lotSites] using this
+
+/-- Whole runs: a panic of `run cfg chain` at one of the three `Lot` sites can only have come out
+of the sat / address / inscription pass of some block (which has no such site), never out of the
+rune pass; with only the rune index on it cannot happen at all. -/
+theorem c08_no_lot_panic_run (cfg : Cfg) (chain : List Block) (hc : RuneLift.LotChainOK chain) (s : String)
+    (hs : s ∈ RuneLift.lotSites) (hp : run cfg chain = .panic s) :
+    ∃ pre b post st evs, chain = pre ++ b :: post ∧ run cfg pre = .ok (st, evs) ∧
+      (cfg.indexInscriptions || cfg.indexAddresses || cfg.indexSats) = true ∧
+      indexUtxoEntries cfg st b = .panic s :=
+  RuneLift.run_lot_panic_origin cfg chain hc s hs hp
+
+theorem c08_no_lot_panic_runes_only (cfg : Cfg)
+    (hcfg : cfg.indexInscriptions = false ∧ cfg.indexAddresses = false ∧ cfg.indexSats = false)
+    (chain : List Block) (hc : RuneLift.LotChainOK chain) (s : String) (hp : run cfg chain = .panic s) :
+    s ∉ RuneLift.lotSites :=
+  RuneLift.run_noLot_runesOnly cfg hcfg chain hc s hp
+
+/-- With C16's stateless rules for the block's transactions (`RuneSafe`: edict outputs and
+pointer in range, node answers present) the rune pass of the next block of a reachable state
+SUCCEEDS — for every configuration. -/
+theorem c08_rune_pass_ok (cfg : Cfg) (chain : List Block) (st : State) (evs : List Event)
+    (hr : run cfg chain = .ok (st, evs)) (blk : Block) (hc : RuneLift.LotChainOK (chain ++ [blk]))
+    (hsafe : ∀ tx ∈ blk.txs, RuneSafe blk.height tx)
+    (st1 : State) (hf : Runemint.RuneFrame st st1) : ∃ r, indexRunesBlock st1 blk = .ok r :=
+  RuneLift.rune_pass_ok cfg chain st evs hr blk hc hsafe st1 hf
+
 /-- non-vacuity: a chain that etches a rune with premine 100 (block 1), then mints 7 and sends 30
 to an OP_RETURN output (block 2) satisfies the hypotheses, is indexed successfully, and ends with
 77 units on an output, 30 burned, one mint: 77 + 30 = 100 + 1 · 7 -/
@@ -186,6 +243,25 @@ example : RuneLift.SupplyChainOK exChain := by
   intro i hi
   have : i = 0 ∨ i = 1 ∨ i = 2 := by simp [exChain] at hi; omega
   rcases this with rfl | rfl | rfl <;> simp [exChain]
+
+example : RuneLift.LotChainOK exChain := by
+  refine ⟨?_, by decide⟩
+  refine ⟨?_, by decide⟩
+  intro i hi
+  have : i = 0 ∨ i = 1 ∨ i = 2 := by simp [exChain] at hi; omega
+  rcases this with rfl | rfl | rfl <;> simp [exChain]
+
+/-- the supply hypothesis is needed: an etching with `premine + cap · amount ≥ 2^128` (which
+`Runestone::decipher` turns into a cenotaph and which therefore never reaches the updater as a
+runestone) makes the second mint overflow -/
+example : (match run ⟨false, false, false, false, true, 0, 0, 0⟩
+    [⟨0, 0, 0, 0, [⟨1, [], [⟨50, false, []⟩], [],
+        some (.runestone [] (some ⟨none, some (2 ^ 128 - 1), none, none, none, some ⟨some 1, some 1, none, none, none, none⟩, false⟩)
+          none none), 0⟩]⟩,
+     ⟨1, 0, 0, 0, [⟨2, [⟨⟨1, 0⟩, false, none, []⟩], [⟨50, false, []⟩], [],
+        some (.runestone [] none (some ⟨0, 0⟩) none), 0⟩]⟩] with
+    | .panic s => s
+    | _ => "") = "lot overflow" := by decide
 
 example : (match run ⟨false, false, false, false, true, 0, 0, 0⟩ exChain with
     | .ok (st, _) => (st.balances, st.runeEntries.map (fun p => (p.2.burned, p.2.mints, p.2.premine)))
